@@ -546,3 +546,67 @@ Example json_read_back_nonvacuous :
   jwf (fun _ => false) v = true /\ jdepth v < JSON_DEPTH /\
   json_value (jwrite (fun _ => []) v ++ [10%N]) = (jevs v, JOk [10%N]).
 Proof. vm_compute. repeat split; lia. Qed.
+
+(* ---------- one line per document ---------- *)
+
+Section Lines.
+  Variable fmt_f64 : N -> bytes.
+  Hypothesis fmt_no_newline : forall b, ~ In 10%N (fmt_f64 b).
+  Notation jwrite := (jwrite fmt_f64).
+
+  Lemma to_dec_no_newline n : ~ In 10%N (to_dec n).
+  Proof.
+    destruct (to_dec_spec n) as (ds & E & _ & F & _). rewrite E. unfold asc. intros H.
+    apply in_map_iff in H as (d & Hd & Hin). rewrite Forall_forall in F. specialize (F d Hin). lia.
+  Qed.
+
+  Lemma escape_no_newline b : ~ In 10%N (escape_byte b).
+  Proof.
+    unfold escape_byte, hexdig.
+    destruct (b =? 34)%N eqn:E1; [cbn; lia|]. destruct (b =? 92)%N eqn:E2; [cbn; lia|].
+    destruct (b =? 8)%N eqn:E3; [cbn; lia|]. destruct (b =? 12)%N eqn:E4; [cbn; lia|].
+    destruct (b =? 10)%N eqn:E5; [cbn; lia|]. destruct (b =? 13)%N eqn:E6; [cbn; lia|].
+    destruct (b =? 9)%N eqn:E7; [cbn; lia|].
+    destruct (b <? 32)%N eqn:E8.
+    - destruct (b / 16 <? 10)%N, (b mod 16 <? 10)%N; cbn [In]; lia.
+    - cbn [In]. lia.
+  Qed.
+
+  Lemma jstring_no_newline s : ~ In 10%N (jstring s).
+  Proof.
+    unfold jstring, jescape. intros [H|H]; [lia|]. apply in_app_or in H as [H|[H|[]]]; [|lia].
+    apply in_flat_map in H as (b & _ & Hb). exact (escape_no_newline b Hb).
+  Qed.
+
+  Lemma join_comma_no_newline (ps : list bytes) : Forall (fun p => ~ In 10%N p) ps -> ~ In 10%N (join_comma ps).
+  Proof.
+    induction 1 as [|p ps Hp Hps IH]; [cbn; tauto|]. destruct ps as [|q ps']; [exact Hp|].
+    cbn [join_comma]. intros H. apply in_app_or in H as [H|[H|H]]; [exact (Hp H)|lia|exact (IH H)].
+  Qed.
+
+  (* a document never contains a raw line break: controls inside strings are escaped *)
+  Theorem jwrite_no_newline : forall v, ~ In 10%N (jwrite v).
+  Proof.
+    induction v as [ |b|n|z|b|s|vs IHvs|kvs IHkvs] using jval_ind2; cbn [JsonWriteModel.jwrite].
+    - cbn [In]. lia.
+    - destruct b; cbn [In]; lia.
+    - apply to_dec_no_newline.
+    - intros [H|H]; [lia|exact (to_dec_no_newline _ H)].
+    - apply fmt_no_newline.
+    - apply jstring_no_newline.
+    - intros [H|H]; [lia|]. apply in_app_or in H as [H|[H|[]]]; [|lia].
+      revert H. apply join_comma_no_newline. rewrite Forall_map. exact IHvs.
+    - intros [H|H]; [lia|]. apply in_app_or in H as [H|[H|[]]]; [|lia].
+      revert H. apply join_comma_no_newline. rewrite Forall_map. rewrite Forall_forall in *. intros [k x] Hin.
+      specialize (IHkvs (k, x) Hin). cbn [snd] in IHkvs. intros H. apply in_app_or in H as [H|[H|H]];
+        [exact (jstring_no_newline k H)|lia|exact (IHkvs H)].
+  Qed.
+
+  (* so the stream xt writes for N documents has exactly N line breaks: one line per document *)
+  Theorem one_line_per_document vs : count_occ N.eq_dec (jwrite_docs fmt_f64 vs) 10%N = length vs.
+  Proof.
+    induction vs as [|v vs IH]; [reflexivity|]. unfold jwrite_docs in *. cbn [flat_map length].
+    rewrite count_occ_app, IH, count_occ_app. rewrite (proj1 (count_occ_not_In N.eq_dec (jwrite v) 10%N) (jwrite_no_newline v)).
+    reflexivity.
+  Qed.
+End Lines.
